@@ -153,7 +153,7 @@ class Taint:
 				if t is not None:
 					return set(t)
 			if isinstance(e.func, ast.Attribute):
-				if e.func.attr in ('split', 'rsplit', 'partition', 'rpartition', 'elements'):
+				if e.func.attr in ('split', 'rsplit', 'partition', 'rpartition', 'elements', 'expanded', 'expand_elements'):
 					out = self.of(e.func.value)
 					for a in e.args:
 						out |= self.of(a)
@@ -284,5 +284,7 @@ def find_sites(func: FuncInfo, taint: Taint) -> list[Site]:
 			for bound in (n.slice.lower, n.slice.upper):
 				if isinstance(bound, ast.Call) and isinstance(bound.func, ast.Name) and bound.func.id == 'len' and bound.args:
 					lab = taint.of(n.value) | taint.of(bound.args[0])
-					sites.append(Site(func, n, 'slicelen', n.value, bound.args[0], lab, False, 'slices by the length of another string'))
+					# slicing a list of whole elements by the length of another element list is element-wise: not a sink
+					if is_string_labels(taint.of(n.value)):
+						sites.append(Site(func, n, 'slicelen', n.value, bound.args[0], lab, False, 'slices by the length of another string'))
 	return sites
